@@ -253,6 +253,7 @@ func TestC19ResponseHeaderTimeout(t *testing.T) {
 		method := rapid.SampledFrom([]string{"GET", "GET", "POST", "HEAD"}).Draw(t, "method")
 		// other proxy features on the response path (compression) must not swallow the 504
 		acceptEncoding := rapid.SampledFrom([]string{"", "gzip", "gzip, deflate"}).Draw(t, "accept-encoding")
+		upgrade := rapid.SampledFrom([]string{"", "", "h2c", "TLS/1.0", "web"}).Draw(t, "upgrade-offer")
 		var pcfg config.Proxy
 		if rapid.Bool().Draw(t, "gzip-configured") {
 			pcfg.GZIPContentTypes = regexp.MustCompile(`^(text/.*|application/json)(;.*)?$`)
@@ -269,6 +270,12 @@ func TestC19ResponseHeaderTimeout(t *testing.T) {
 			}
 			if acceptEncoding != "" {
 				req.Header.Set("Accept-Encoding", acceptEncoding)
+			}
+			if upgrade != "" {
+				// an upgrade offer that is not a websocket handshake (curl --http2 sends h2c): an ordinary request
+				req.Header.Set("Upgrade", upgrade)
+				req.Header.Set("Connection", "Upgrade, HTTP2-Settings")
+				req.Header.Set("HTTP2-Settings", "AAMAAABkAAQCAAAAAAIAAAAA")
 			}
 			return req
 		}
@@ -335,7 +342,7 @@ func TestC19ResponseHeaderTimeout(t *testing.T) {
 		}
 		code, body, took := run(T)
 		hx.Eval()
-		ctx := fmt.Sprintf("responseheadertimeout=%v upstream delay=%v transport=%s request=%s Accept=%q Accept-Encoding=%q gzip-configured=%v (%s)", T, D, kind, method, accept, acceptEncoding, pcfg.GZIPContentTypes != nil, describe(cfg))
+		ctx := fmt.Sprintf("responseheadertimeout=%v upstream delay=%v transport=%s request=%s Accept=%q Accept-Encoding=%q Upgrade=%q gzip-configured=%v (%s)", T, D, kind, method, accept, acceptEncoding, upgrade, pcfg.GZIPContentTypes != nil, describe(cfg))
 		if slow {
 			if code != 504 {
 				t.Fatalf("upstream answers after %v but the client got %d after %v, want 504\n%s", D, code, took, ctx)
